@@ -335,3 +335,73 @@ Definition enc_last : bytes := hex_of 0 ++ strCRLF.
 Definition enc_chunks (cs : list bytes) : bytes := concat (map enc_chunk cs) ++ enc_last.
 (* a complete chunked body with an empty trailer section *)
 Definition enc_chunked_message (cs : list bytes) : bytes := enc_chunks cs ++ strCRLF.
+
+(* ------------------------------------------------------------------ *)
+(* streams that copy themselves: io.WriterTo / BodyWriterTo            *)
+(* ------------------------------------------------------------------ *)
+(* A bytes.Reader, a bytes.Buffer or a BodyWriterTo with SupportsBodyWriteTo() = true is not
+   Read by fasthttp: its WriteTo is handed a writer and issues Write calls.  Such a stream is
+   the list `segs` of the byte slices it writes, in order — empty slices included — and it
+   stops at the first Write that fails, returning that error.
+
+   chunkedBodyWriter.Write(p): the adapter writeBodyChunked passes to WriteTo.
+     if len(p) == 0 { return 0, nil }      -- an empty chunk would be the end-of-body marker
+     writeChunk(cw.w, p)                                                                   *)
+Definition chunkedBodyWriter_Write (w : bw) (p : bytes) : bw * wres :=
+  match p with
+  | [] => (w, WOk)
+  | _ => writeChunk w p
+  end.
+
+(* wt.WriteTo(&cw) *)
+Fixpoint writeTo_chunked (w : bw) (segs : list bytes) : bw * wres :=
+  match segs with
+  | [] => (w, WOk)
+  | p :: rest =>
+      let '(w1, r) := chunkedBodyWriter_Write w p in
+      match r with WOk => writeTo_chunked w1 rest | _ => (w1, r) end
+  end.
+
+(* writeBodyChunked(w, r) for such a stream: WriteTo through the adapter, then the last-chunk line *)
+Definition writeBodyChunkedWT (w : bw) (segs : list bytes) : bw * wres :=
+  let '(w1, r) := writeTo_chunked w segs in
+  match r with
+  | WOk => writeChunk w1 []
+  | _ => (w1, r)
+  end.
+
+(* copyBodyStream(w, r) for a BodyWriterTo that opted in: r.WriteTo(w) with w the bufio.Writer itself;
+   n = bytes written *)
+Fixpoint writeTo_plain (w : bw) (segs : list bytes) (n : Z) : bw * Z * wres :=
+  match segs with
+  | [] => (w, n, WOk)
+  | p :: rest =>
+      let '(w1, ok) := bw_write w p in
+      if ok then writeTo_plain w1 rest (n + blen p) else (w1, n, WErrWrite)
+  end.
+
+(* writeBodyFixedSize for it: not limited (the stream copies itself), only the size is compared *)
+Definition writeBodyFixedSizeWT (w : bw) (segs : list bytes) (size : Z) : bw * wres :=
+  let '(w1, n, r) := writeTo_plain w segs 0 in
+  match r with
+  | WOk => (w1, if n =? size then WOk else WErrSize)
+  | _ => (w1, r)
+  end.
+
+(* Response.writeBodyStream / Request.writeBodyStream with such a stream (no Read, hence no panic path) *)
+Definition respWriteBodyStreamWT (hdr trailer : bytes) (cl : Z) (sendBody immediateFlush : bool)
+           (w : bw) (segs : list bytes) : bw * wres :=
+  let '(w1, ok1) := bw_write w hdr in
+  if negb ok1 then (w1, WErrWrite) else
+  let '(w2, ok2) := if immediateFlush then bw_flush w1 else (w1, true) in
+  if negb ok2 then (w2, WErrWrite) else
+  if cl >=? 0 then
+    if sendBody then writeBodyFixedSizeWT w2 segs cl else (w2, WOk)
+  else
+    if sendBody then
+      let '(w3, r3) := writeBodyChunkedWT w2 segs in
+      match r3 with
+      | WOk => let '(w4, ok4) := bw_write w3 trailer in (w4, if ok4 then WOk else WErrWrite)
+      | _ => (w3, r3)
+      end
+    else (w2, WOk).
